@@ -77,6 +77,10 @@ func (rl *RangeLoop) Iterate() inspector.LoopCtl {
 			return inspector.LoopCtlBrk
 		}
 		if err == ErrContLoop {
+			if lerr == ErrLBreakLoop {
+				// The iteration ends early, but a lazybreak has been requested before.
+				break
+			}
 			return inspector.LoopCtlCnt
 		}
 		if err != nil && err != ErrLBreakLoop {
